@@ -85,7 +85,7 @@ def main(rep, run=run_task, pid=PID):
             full += 1
         if len(r['orders']) != math.factorial(cfg['d']):
             raise choice.HarnessError(f"non-vacuity: {sc.cfg_desc(cfg)} saw feature orders {r['orders']}")
-        if cfg['model'] == 'multi' and len(r['labelsets']) < 2:
+        if cfg['model'] in ('multi', 'swap') and len(r['labelsets']) < 2:
             raise choice.HarnessError(f"non-vacuity: {sc.cfg_desc(cfg)} saw label sets {r['labelsets']}")
         rep.mark_nontrivial([(sc.cfg_desc(cfg), o) for o in r['orders']])
         if len(rep.samples) < 3 and cfg['d'] == 3 and cfg['n_inner'] == 2:
